@@ -1222,8 +1222,12 @@ impl<const MIN_ALIGN: usize> Bump<MIN_ALIGN> {
                         // It's still the same chunk, so reset the bump pointer
                         // to its original value upon entry to this method
                         // (reclaiming any alignment padding we may have
-                        // added).
-                        current_ptr.set(rewind_ptr);
+                        // added). A zero-sized result did not move it; do
+                        // not store in that case, so that the shared static
+                        // empty chunk is never written to.
+                        if current_ptr.get() != rewind_ptr {
+                            current_ptr.set(rewind_ptr);
+                        }
                     } else {
                         // We allocated a new chunk for this result.
                         //
@@ -1332,8 +1336,12 @@ impl<const MIN_ALIGN: usize> Bump<MIN_ALIGN> {
                         // It's still the same chunk, so reset the bump pointer
                         // to its original value upon entry to this method
                         // (reclaiming any alignment padding we may have
-                        // added).
-                        current_ptr.set(rewind_ptr);
+                        // added). A zero-sized result did not move it; do
+                        // not store in that case, so that the shared static
+                        // empty chunk is never written to.
+                        if current_ptr.get() != rewind_ptr {
+                            current_ptr.set(rewind_ptr);
+                        }
                     } else {
                         // We allocated a new chunk for this result.
                         //
@@ -1973,9 +1981,16 @@ impl<const MIN_ALIGN: usize> Bump<MIN_ALIGN> {
             );
 
             debug_assert!(!aligned_ptr.is_null());
+            // A zero-sized allocation that needs no alignment padding does not
+            // move the bump pointer. Skipping the store in that case means the
+            // shared, static empty chunk is never written to, which would be a
+            // data race between threads that each use their own (still
+            // chunk-less) `Bump`.
+            let moved = aligned_ptr != ptr;
             let aligned_ptr = NonNull::new_unchecked(aligned_ptr);
-
-            footer.ptr.set(aligned_ptr);
+            if moved {
+                footer.ptr.set(aligned_ptr);
+            }
             Some(aligned_ptr)
         }
     }
@@ -2229,7 +2244,9 @@ impl<const MIN_ALIGN: usize> Bump<MIN_ALIGN> {
     unsafe fn dealloc(&self, ptr: NonNull<u8>, layout: Layout) {
         // If the pointer is the last allocation we made, we can reuse the bytes,
         // otherwise they are simply leaked -- at least until somebody calls reset().
-        if self.is_last_allocation(ptr) {
+        // Zero-sized allocations have nothing to give back (and might "live" in
+        // the shared, static empty chunk, which must never be written to).
+        if layout.size() != 0 && self.is_last_allocation(ptr) {
             let ptr = self.current_chunk_footer.get().as_ref().ptr.get();
             let ptr = ptr.as_ptr().add(layout.size());
 
@@ -2284,7 +2301,8 @@ impl<const MIN_ALIGN: usize> Bump<MIN_ALIGN> {
         // the requested alignment.
         let delta = round_down_to(old_size - new_size, new_layout.align().max(MIN_ALIGN));
 
-        if self.is_last_allocation(ptr)
+        if delta > 0
+            && self.is_last_allocation(ptr)
                 // Only reclaim the excess space (which requires a copy) if it
                 // is worth it: we are actually going to recover "enough" space
                 // and we can do a non-overlapping copy.
